@@ -382,7 +382,7 @@ fn eval_axis_node_test(
 
     let mut tested = vec![];
     for node in nodes {
-        if eval_node_test(test, node.clone(), context)? {
+        if is_principal_node_type(axis, test, &node) && eval_node_test(test, node.clone(), context)? {
             tested.push(node);
         }
     }
@@ -441,6 +441,32 @@ fn eval_predicates(
     }
 
     Ok(nodes)
+}
+
+/// A name test (`*`, `p:*`, a QName) selects only nodes of the principal node type of the
+/// axis: attributes on the attribute axis, namespace nodes on the namespace axis and
+/// elements on every other axis.
+fn is_principal_node_type(
+    axis: &expr::AxisSpecifier,
+    test: &expr::NodeTest,
+    node: &dom::XmlNode,
+) -> bool {
+    if !matches!(test, expr::NodeTest::Name(_)) {
+        return true;
+    }
+
+    match axis {
+        expr::AxisSpecifier::Abbreviated(v) if v.as_str() == "@" => {
+            matches!(node, dom::XmlNode::Attribute(_))
+        }
+        expr::AxisSpecifier::Name(expr::AxisName::Attribute) => {
+            matches!(node, dom::XmlNode::Attribute(_))
+        }
+        expr::AxisSpecifier::Name(expr::AxisName::Namespace) => {
+            matches!(node, dom::XmlNode::Namespace(_))
+        }
+        _ => matches!(node, dom::XmlNode::Element(_)),
+    }
 }
 
 fn eval_node_test(
